@@ -145,10 +145,6 @@ Proof.
   exists n, items. split; [exact Hn|]. split; [exact HI|]. apply Hiff; lia.
 Qed.
 
-Lemma AP_range_then {A} self name (k : N -> N -> W A) :
-  (forall lo hi pos, (lo <= pos <= hi) -> PI self name pos (k lo hi)) -> False -> True.
-Proof. auto. Qed.
-
 Lemma AP_raw_create self name : AP (raw_create_sub_element T self name v).
 Proof.
   intros w r w' A F H. unfold raw_create_sub_element in H.
